@@ -159,6 +159,58 @@ def task_full_mul(a, env):
     return r
 
 
+def task_full_unreduced(a, env):
+    """the same points written with other integer representatives of their coordinates
+    (x + P, x - P, y + P): doubling, inverse points, generic addition, multiply"""
+    S, m = L.full()
+    r = R("full:unreduced-coordinate-representatives")
+    P_ = m.p
+    pts = _full_points(m, env)[1:5]
+    forms = [lambda Q: (Q[0] + P_, Q[1]), lambda Q: (Q[0] - P_, Q[1]), lambda Q: (Q[0], Q[1] + P_),
+             lambda Q: (Q[0] + 2 * P_, Q[1] - P_)]
+    for A in pts:
+        for B in (A, m.neg(A), pts[0], pts[2]):
+            for fi, f in enumerate(forms):
+                for side in (0, 1):
+                    a1, b1 = (f(A), L.to_lib(B)) if side == 0 else (L.to_lib(A), f(B))
+                    o = L.call(S.add, a1, b1)
+                    got = L.to_model(o[1]) if o[0] == "ok" else o
+                    exp = m.add(A, B)
+                    r.ev += 1
+                    r.dk.add((pts.index(A), _path(m, A, B), fi, side))
+                    if got != exp:
+                        r.viol("C18:full:add:unreduced-representative:%s" % _path(m, A, B), ME + ":replay_unred",
+                               {"A": _pt(A), "B": _pt(B), "form": fi, "side": side}, exp, got)
+        for fi, f in enumerate(forms):
+            o = L.call(S.multiply, f(A), 5)
+            got = L.to_model(o[1]) if o[0] == "ok" else o
+            r.ev += 1
+            if got != m.mul(A, 5):
+                r.viol("C18:full:multiply:unreduced-representative", ME + ":replay_unred",
+                       {"A": _pt(A), "B": None, "form": fi, "side": 0}, m.mul(A, 5), got)
+    r.transitions = r.ev
+    r.sample({"forms": ["(x+P, y)", "(x-P, y)", "(x, y+P)", "(x+2P, y-P)"], "cases": "P+P, P+(-P), generic; multiply by 5"})
+    return r
+
+
+def replay_unred(a):
+    S, m = L.full()
+    P_ = m.p
+    forms = [lambda Q: (Q[0] + P_, Q[1]), lambda Q: (Q[0] - P_, Q[1]), lambda Q: (Q[0], Q[1] + P_),
+             lambda Q: (Q[0] + 2 * P_, Q[1] - P_)]
+    A, B = _unpt(a["A"]), _unpt(a["B"])
+    f = forms[a["form"]]
+    if a["B"] is None:
+        o = L.call(S.multiply, f(A), 5)
+        exp = m.mul(A, 5)
+    else:
+        a1, b1 = (f(A), L.to_lib(B)) if a["side"] == 0 else (L.to_lib(A), f(B))
+        o = L.call(S.add, a1, b1)
+        exp = m.add(A, B)
+    got = L.to_model(o[1]) if o[0] == "ok" else o
+    return None if got == exp else {"expected": exp, "observed": got}
+
+
 def task_full_priv(a, env):
     S, m = L.full()
     r = R("full:privtopub+constants")
@@ -183,6 +235,16 @@ def task_full_priv(a, env):
         r.dk.add(d)
         if g != exp:
             r.viol("C18:full:privtopub", ME + ":replay", {"cfg": "full", "op": "priv", "d": hex(d)}, exp, g)
+    # text keys (the module accepts str, one character per octet): ASCII and Latin-1
+    for txt in ("0" * 31 + "7", "\xe9" * 32, "\x00" * 31 + "\xff"):
+        d = int.from_bytes(txt.encode("latin-1"), "big")
+        o = L.call(S.privtopub, txt)
+        g = L.to_model(o[1]) if o[0] == "ok" else o
+        r.ev += 1
+        r.dk.add(txt)
+        if g != m.mul(m.G, d % N):
+            r.viol("C18:full:privtopub:text-key", ME + ":replay", {"cfg": "full", "op": "privtxt", "txt": txt.encode("latin-1").hex()},
+                   m.mul(m.G, d % N), g)
     # published anchor (also in the repository's own suite): the key of d = 1 is G
     r.sample({"op": "privtopub", "d": hex(ds[3])})
     return r
@@ -195,6 +257,12 @@ def replay(a):
         exp, got = _chk_add(S, m, _unpt(a["A"]), _unpt(a["B"]))
     elif op == "mul":
         exp, got = _chk_mul(S, m, _unpt(a["A"]), int(a["n"], 16))
+    elif op == "privtxt":
+        txt = bytes.fromhex(a["txt"]).decode("latin-1")
+        d = int.from_bytes(bytes.fromhex(a["txt"]), "big")
+        o = L.call(S.privtopub, txt)
+        got = L.to_model(o[1]) if o[0] == "ok" else o
+        exp = m.mul(m.G, d % m.n)
     elif op == "priv":
         d = int(a["d"], 16)
         o = L.call(S.privtopub, d.to_bytes(32, "big"))
@@ -228,4 +296,5 @@ def run(ctx):
     step = 4 if ctx.quick else 12
     tasks += [("full_mul", {"lo": i, "step": step}) for i in range(step)]
     tasks.append(("full_priv", {}))
+    tasks.append(("full_unreduced", {}))
     ctx.pmap(ME, tasks)
